@@ -32,7 +32,10 @@ Judge(e) ==
       ELSE IF ~(SetOf(e.writes) \subseteq AllowedWrites(e.op)) THEN
               (IF "an_init" \in SetOf(e.writes) /\ anInit
                THEN (IF reloaded THEN "reinitialised_after_reload" ELSE "reinitialised")
-               ELSE IF mode = "eval" THEN "state_written_in_eval" ELSE "undocumented_state_write")
+               ELSE IF "mode_flag" \in SetOf(e.writes) THEN "mode_changed"
+               ELSE IF mode = "eval" THEN "state_written_in_eval"
+               ELSE IF frozen /\ "bn_running" \in SetOf(e.writes) THEN "frozen_statistics_written"
+               ELSE "undocumented_state_write")
       ELSE IF MustRepeat(e.op) /\ e.repeat = "neq" THEN "repeat_differs"
       ELSE "ok"
   ELSE IF e.a = "SaveLoadFresh" THEN
@@ -47,6 +50,7 @@ Step ==
        /\ reloaded' = (reloaded \/ e.a = "SaveLoadFresh")
        /\ \/ (e.a = "Train" /\ Train)
           \/ (e.a = "Eval" /\ Eval)
+          \/ (e.a = "Freeze" /\ Freeze)
           \/ (e.a = "TrainStep" /\ TrainStep)
           \/ (e.a = "SaveLoadFresh" /\ SaveLoadFresh)
           \/ (e.a = "Call" /\ Call(e.op, e.ik))
